@@ -122,6 +122,12 @@ STRING = {
     "lods": ({RSI, RAX}, {RSI}, False), "scas": ({RDI}, {RDI, RAX}, False), "cmps": ({RSI, RDI}, {RSI, RDI}, False),
 }
 CTL_WRITERS = set("ldmxcsr vldmxcsr fldcw fninit finit fxrstor fxrstor64 xrstor xrstor64 fldenv frstor".split())
+# conditional jumps after `cmp r, k`: (signed?, relation that holds between r and k when TAKEN)
+JCC_REL = {"jb": (False, "RLt"), "jc": (False, "RLt"), "jnae": (False, "RLt"),
+           "jae": (False, "RGe"), "jnb": (False, "RGe"), "jnc": (False, "RGe"),
+           "jbe": (False, "RLe"), "jna": (False, "RLe"), "ja": (False, "RGt"), "jnbe": (False, "RGt"),
+           "jl": (True, "RLt"), "jnge": (True, "RLt"), "jge": (True, "RGe"), "jnl": (True, "RGe"),
+           "jle": (True, "RLe"), "jng": (True, "RLe"), "jg": (True, "RGt"), "jnle": (True, "RGt")}
 JCC = set("""ja jae jb jbe jc je jg jge jl jle jna jnae jnb jnbe jnc jne jng jnge jnl jnle jno jnp jns jnz jo jp jpe jpo js jz
  jrcxz jecxz loop loope loopne""".split())
 
@@ -398,6 +404,8 @@ def translate(i, uid):
         name = "imul1" if len(pops) == 1 else "imul3"
     if mn == "movsd" and pops and pops[0][0] in ("vec", "mem") and len(pops) == 2:
         name = "movsd_x"
+    if name == "xchg" and len(pops) == 2 and all(p[0] == "gpr" and p[2] == 64 for p in pops):
+        return [("GXchg", pops[0][1], pops[1][1])], v, notes
     if name in IMPLICIT:
         w, r, how = IMPLICIT[name]
         w, r = set(w), set(r) | gpr_reads(pops)
@@ -438,6 +446,12 @@ def translate(i, uid):
             reads = reads | {r}        # result depends on the old value of the destination
         if name.startswith("cmov"):
             reads = reads | {r}
+        if w == 32:
+            reads = set()              # (A4) a zero-extended 32-bit result is not a frame pointer
+        if name in ("mov", "movabs") and w >= 32 and len(srcs) == 1 and srcs[0][0] == "imm" and 0 <= srcs[0][1] < (1 << 31):
+            return [("GConst", r, srcs[0][1])], v, notes
+        if name == "xor" and w >= 32 and len(srcs) == 1 and srcs[0][0] == "gpr" and srcs[0][1] == r and srcs[0][2] == w:
+            return [("GConst", r, 0)], v, notes
         if name == "mov" and w == 64 and len(srcs) == 1:
             s = srcs[0]
             if s[0] == "gpr" and s[2] == 64:
@@ -449,7 +463,7 @@ def translate(i, uid):
             m = srcs[0][1]
             if m.index is None and m.base is not None and not m.rip and not m.seg and keep_precise(r, m.base):
                 return [("GLea", r, m.base, m.disp)], v, notes
-        if name in ("add", "sub") and w == 64 and len(srcs) == 1 and srcs[0][0] == "imm" and keep_precise(r, r):
+        if name in ("add", "sub") and w == 64 and len(srcs) == 1 and srcs[0][0] == "imm":
             k = srcs[0][1]
             if k >= 1 << 63:
                 k -= 1 << 64
@@ -495,7 +509,9 @@ def store_insn(m, src):
         return [("GStore", m.base, m.disp, m.size, src)]
     if m.size is None:
         return [("GUnknown",)]
-    return [("GStoreNS", mask(m.regs()))]       # indexed: only admissible through non-stack registers
+    if m.base is not None and m.index is not None:
+        return [("GStoreIdx", m.base, m.index, m.scale, m.disp, m.size)]
+    return [("GStoreNS", mask(m.regs()))]       # index without base: only admissible through non-stack registers
 
 
 # ---------------------------------------------------------------------------- CFG
@@ -599,7 +615,10 @@ def build_function(o, entry, fname, is_global, want_call):
         g, v = [], []
         a = s
         term = None
+        prev = None
         while True:
+            if a != s:
+                prev = i
             i = insns[a]
             mn = i.mn
             if mn == "jmp":
@@ -621,6 +640,12 @@ def build_function(o, entry, fname, is_global, want_call):
                     g.append(("GClob", mask(w), mask(r)))
                 if t and t[0] == "local" and t[1] in index and i.next in index:
                     term = ("TJcc", index[t[1]], index[i.next])
+                    cc = JCC_REL.get(mn)
+                    if cc and prev is not None and prev.mn == "cmp" and len(prev.ops) == 2:
+                        pa, pb = parse_operand(prev.ops[0]), parse_operand(prev.ops[1])
+                        if pa[0] == "gpr" and pa[2] in (32, 64) and pb[0] == "imm":
+                            k = pb[1] - (1 << 64) if pb[1] >= (1 << 63) else pb[1]
+                            term = ("TJcmp", cc[0], pa[2] == 64, cc[1], pa[1], k, index[t[1]], index[i.next])
                 else:
                     term = ("TBad",)
                     f.notes.append("conditional branch not understood: " + i.raw)
